@@ -595,7 +595,300 @@ def snapshot_pinning(fns):
     return out
 
 
+
+# ---------------------------------------------------------------------------------------------
+# C10 O10.6b: recover() trusts the version file only after verifying it against `current`
+# ---------------------------------------------------------------------------------------------
+
+def recover_verifies(fns):
+    fn = mir.find(fns, r"^fn (version::)?recovery::recover\(|^fn recover\(_1: &Path\)")
+    uf = alias_classes(fn)
+    a = Automaton(fn, "O10.6b version::recovery::recover: the version file is parsed only after it matched the checksum stored in `current`")
+    cur = calls(fn, r"get_current_version_and_checksum$|get_current_version$")
+    ver = calls(fn, r"(^|::)verify_checksum(::<.*>)?$")
+    parse = calls(fn, r"sfa::Reader::new|Reader::new::<")
+    if not parse:
+        raise MirError("recover: sfa::Reader::new call not found")
+    ok_ret, _ = ret_blocks(fn)
+    a.var("verified")
+    good = []
+    for b in ver:
+        args = [x.strip() for x in mir.split_top(b.args)]
+        # the expected checksum must come from the `current` file read in this function
+        exp = RE_LOCAL.search(args[-1])
+        if cur and exp and any(same_class(uf, exp.group(0), c.dest) for c in cur):
+            good.append(b)
+    a.event("ok:verify_checksum(version file, checksum from current)", ok_blocks(fn, good, "verify_checksum", strict=False))
+    a.on("ok:verify_checksum(version file, checksum from current)", "verified", True)
+    a.event("call:parse version file", [b.idx for b in parse])
+    a.event("ret_ok", ok_ret)
+    a.require("call:parse version file", "{verified}", "the version file is parsed before (or without) being verified against the checksum in `current`")
+    a.require("ret_ok", "{verified}", "recover returns a Recovery without having verified the version file")
+    return [a]
+
+
+
+# ---------------------------------------------------------------------------------------------
+# branch edges of boolean calls + glue facts
+# ---------------------------------------------------------------------------------------------
+import glue
+
+
+def preds(fn):
+    p = {}
+    for b in live_blocks(fn):
+        for t in b.succ:
+            p.setdefault(t, set()).add(b.idx)
+    return p
+
+
+def bool_edges(fn, switch_block, on_local):
+    """(true_target, false_target) of a switchInt on a bool local (handles an interposed Not)."""
+    sw = switch_block
+    if sw.kind != "switch":
+        raise MirError("expected a switchInt in bb%d" % sw.idx)
+    arg = RE_LOCAL.search(sw.args).group(0)
+    flipped = False
+    if arg != on_local:
+        d = [st for st in sw.stmts if st.startswith(arg + " = ")]
+        if len(d) == 1 and re.match(r"^_\d+ = Not\((move|copy) %s\)$" % on_local, d[0]):
+            flipped = True
+        else:
+            raise MirError("switch in bb%d is not on %s" % (sw.idx, on_local))
+    t = f = None
+    for v, tgt in sw.switch:
+        if v == "0":
+            f = tgt
+        elif v in ("otherwise", "1"):
+            t = tgt if t is None or v == "1" else t
+    if t is None or f is None:
+        raise MirError("switch in bb%d has no two-way targets" % sw.idx)
+    if flipped:
+        t, f = f, t
+    return t, f
+
+
+def edge_block(fn, switch_idx, target):
+    """an edge is representable as an event on its target block only if nothing else jumps there"""
+    if preds(fn).get(target, set()) == {switch_idx}:
+        return target
+    # split the edge: a synthetic pass-through block that only this edge enters
+    new = max(fn.blocks) + 1
+    nb = mir.Block(new, False)
+    nb.kind, nb.succ, nb.term = "goto", [target], "goto -> bb%d (synthetic edge block for bb%d -> bb%d)" % (target, switch_idx, target)
+    fn.blocks[new] = nb
+    sw = fn.blocks[switch_idx]
+    done = False
+    for i, t in enumerate(sw.succ):
+        if t == target and not done:
+            sw.succ[i] = new
+            done = True
+    if sw.kind == "switch":
+        done = False
+        for i, (v, t) in enumerate(sw.switch):
+            if t == target and not done:
+                sw.switch[i] = (v, new)
+                done = True
+    return new
+
+
+def call_bool_edges(fn, b):
+    """(true edge target, false edge target, switch block idx) for a call returning bool"""
+    if not b.succ:
+        raise MirError("diverging call")
+    sw = fn.blocks[b.succ[0]]
+    t, f = bool_edges(fn, sw, b.dest)
+    return t, f, sw.idx
+
+
+def true_edge(fn, b):
+    t, f, sw = call_bool_edges(fn, b)
+    return edge_block(fn, sw, t)
+
+
+def false_edge(fn, b):
+    t, f, sw = call_bool_edges(fn, b)
+    return edge_block(fn, sw, f)
+
+
+def with_merge_blob_rules(fns):
+    fn = mir.find(fns, r"src/version/mod\.rs[^>]*>::with_merge\(")
+    uf = alias_classes(fn)
+    a = Automaton(fn, "O9.3b Version::with_merge: new blob files are inserted, dropped ones removed, the fragmentation diff merged - unless the respective input is empty")
+    newp, dropp, diffp = fn.debug.get("new_blob_files"), fn.debug.get("blob_files_to_drop"), fn.debug.get("diff")
+    if not (newp and dropp):
+        raise MirError("with_merge: parameters new_blob_files / blob_files_to_drop not found")
+    # emptiness tests and their true edges
+    new_true, drop_true = [], []
+    skip = set()  # inputs whose emptiness test is not a plain branch: their requirement is dropped (no false alarm)
+    for b in calls(fn, r"::is_empty$"):
+        al = arg_locals(b)
+        if any(same_class(uf, x, newp) for x in al) and "BlobFile" in b.callee:
+            try:
+                new_true.append(true_edge(fn, b))
+            except MirError:
+                skip.add("new")
+        elif any(same_class(uf, x, dropp) for x in al):
+            try:
+                drop_true.append(true_edge(fn, b))
+            except MirError:
+                skip.add("drop")
+    # has_diff = diff.is_some(): false edges of every switch on that bool
+    some = [b for b in calls(fn, r"Option::<FragmentationMap>::is_some$")]
+    diff_false = []
+    if len(some) == 1:
+        hd = some[0].dest
+        for b in live_blocks(fn):
+            if b.kind == "switch" and RE_LOCAL.search(b.args).group(0) == hd:
+                diff_false.append(edge_block(fn, b.idx, bool_edges(fn, b, hd)[1]))
+    else:
+        raise MirError("with_merge: diff.is_some() not found exactly once")
+    # `if let Some(diff) = diff`: the None edge of a discriminant test of the same option is also "no diff"
+    if diffp is None:
+        diffp = RE_LOCAL.search(some[0].args).group(0)
+    for b in live_blocks(fn):
+        if b.kind != "switch":
+            continue
+        for st in b.stmts:
+            m = re.match(r"^(_\d+) = discriminant\((_\d+)\)$", st)
+            if m and m.group(1) == RE_LOCAL.search(b.args).group(0) and (same_class(uf, m.group(2), diffp) or same_class(uf, m.group(2), RE_LOCAL.search(some[0].args).group(0))):
+                for v, tgt in b.switch:
+                    if v == "0":
+                        diff_false.append(edge_block(fn, b.idx, tgt))
+    cons_new = [b for b in calls(fn, r"as IntoIterator>::into_iter$") if "BlobFile" in b.callee and any(same_class(uf, x, newp) for x in arg_locals(b))]
+    ins = calls(fn, r"BlobFileList::insert$")
+    cons_drop = [b for b in calls(fn, r"as IntoIterator>::into_iter$") if any(same_class(uf, x, dropp) for x in arg_locals(b))]
+    rem = calls(fn, r"BlobFileList::remove$")
+    merged = calls(fn, r"FragmentationMap::merge_into$")
+    rets = [b.idx for b in live_blocks(fn) if b.kind == "return"]
+    a.var("new_empty").var("new_done").var("drop_empty").var("drop_done").var("no_diff").var("diff_done")
+    a.event("edge:new_blob_files.is_empty()==true", new_true).on("edge:new_blob_files.is_empty()==true", "new_empty", True)
+    a.event("edge:blob_files_to_drop.is_empty()==true", drop_true).on("edge:blob_files_to_drop.is_empty()==true", "drop_empty", True)
+    a.event("edge:diff.is_some()==false", diff_false).on("edge:diff.is_some()==false", "no_diff", True)
+    a.event("call:for blob_file in new_blob_files", [b.idx for b in cons_new] if ins else []).on("call:for blob_file in new_blob_files", "new_done", True)
+    a.event("call:for id in blob_files_to_drop", [b.idx for b in cons_drop] if rem else []).on("call:for id in blob_files_to_drop", "drop_done", True)
+    a.event("call:diff.merge_into", [b.idx for b in merged]).on("call:diff.merge_into", "diff_done", True)
+    a.event("return", rets)
+    if "new" not in skip:
+        a.require("return", "(or {new_empty} {new_done})", "with_merge can return without inserting the blob files the compaction created although it never saw that list empty (pointers into them dangle)")
+    if "drop" not in skip:
+        a.require("return", "(or {drop_empty} {drop_done})", "with_merge can return without removing blob_files_to_drop although it never saw that set empty")
+    a.name += "" if not skip else " [requirement(s) for %s skipped: emptiness test is not a plain branch]" % ", ".join(sorted(skip))
+    a.require("return", "(or {no_diff} {diff_done})", "with_merge can return without merging the fragmentation diff although diff.is_some()")
+    return [a]
+
+
+def leveled_trivial_lmax(fns):
+    fn = mir.find(fns, r"src/compaction/leveled/mod\.rs[^>]*>::choose\(")
+    ctx = glue.Ctx(fn)
+    a = Automaton(fn, "O7.5 leveled::Strategy::choose: L0 is moved straight into the last level only if every level strictly between is empty and the key ranges do not overlap")
+    # all `_0 = Choice::Move(move _i)` statements whose Input.dest_level == level_count - 1
+    lc_calls = calls(fn, r"^Version::level_count$")
+    if not lc_calls:
+        raise MirError("choose: Version::level_count not called")
+    lc, _ = glue.term(ctx, lc_calls[0].dest)
+    lmax64 = "(bvsub %s (_ bv1 64))" % lc
+    moves, glue_results = [], []
+    for b in live_blocks(fn):
+        for st in b.stmts:
+            m = re.match(r"^_0 = Choice::Move\(move (_\d+)\)$", st)
+            if not m:
+                continue
+            inp = [x for bb in live_blocks(fn) for x in bb.stmts if re.match(r"^%s = (compaction::)?Input \{" % re.escape(m.group(1)), x)]
+            if len(inp) != 1:
+                continue
+            dm = re.search(r"dest_level: (move|copy) (_\d+)", inp[0])
+            t, w = glue.term(ctx, dm.group(2))
+            v, detail, dt, smt = glue.equal_for_all(ctx, t, "((_ extract 7 0) %s)" % lmax64)
+            glue_results.append(("dest_level == level_count - 1 (as u8) for the Move in bb%d" % b.idx, v, dt))
+            if v == "proved":
+                moves.append(b.idx)
+    if not moves:
+        raise MirError("choose: no Move whose destination is provably the last level (trivial_lmax block not found)")
+    # the emptiness scan: Range { start: 1, end: E }.any(closure) with E == level_count - 1
+    scans_false = []
+    for b in calls(fn, r"<std::ops::Range<usize> as Iterator>::any::<"):
+        rng = None
+        for st in b.stmts:
+            mm = re.match(r"^(_\d+) = std::ops::Range::<usize> \{ start: (.*), end: (.*) \}$", st)
+            if mm:
+                rng = mm
+        if rng is None:
+            continue
+        s0, _ = glue.operand(ctx, rng.group(2), 8)
+        e0, _ = glue.operand(ctx, rng.group(3), 8)
+        v1 = glue.equal_for_all(ctx, s0, "(_ bv1 64)")
+        v2 = glue.equal_for_all(ctx, e0, lmax64)
+        glue_results.append(("intermediate-level scan starts at level 1 (bb%d)" % b.idx, v1[0], v1[2]))
+        glue_results.append(("intermediate-level scan ends before level_count - 1 (bb%d)" % b.idx, v2[0], v2[2]))
+        cl = closure_fns(fns, b)
+        body_ok = any(fn_calls_matching(fns, c, r"^Version::level$", 0) and fn_calls_matching(fns, c, r"::is_empty$", 0) and
+                      any(re.search(r"= Not\(", st) for blk in live_blocks(c) for st in blk.stmts) for c in cl)
+        if v1[0] == "proved" and v2[0] == "proved" and body_ok:
+            scans_false.append(false_edge(fn, b))
+    ov = calls(fn, r"KeyRange::overlaps_with_key_range$")
+    ov_false = []
+    for b in ov:
+        try:
+            ov_false.append(false_edge(fn, b))
+        except MirError:
+            pass
+    a.glue = glue_results
+    a.var("between_empty").var("disjoint")
+    a.event("edge:(1..level_count-1).any(level non-empty)==false", scans_false).on("edge:(1..level_count-1).any(level non-empty)==false", "between_empty", True)
+    a.event("edge:lmax.overlaps(l0)==false", ov_false).on("edge:lmax.overlaps(l0)==false", "disjoint", True)
+    a.event("stmt:Choice::Move(dest = last level)", moves)
+    a.require("stmt:Choice::Move(dest = last level)", "{between_empty}", "L0 can be moved straight into the last level although not every level strictly between 0 and the last was checked to be empty: a newer version ends up beneath an older one")
+    a.require("stmt:Choice::Move(dest = last level)", "{disjoint}", "L0 can be moved into the last level without the key-range overlap check")
+    return [a]
+
+
+def evict_flag(fns):
+    """O1.9: tombstones are evicted only when compacting into the last level; never at flush."""
+    fn = mir.find(fns, r"^fn merge_tables\(")
+    ctx = glue.Ctx(fn)
+    a = Automaton(fn, "O1.9 merge_tables: evict_tombstones(dest_level == level_count - 1), zero_seqnos(false)")
+    ev = one(calls(fn, r"CompactionStream::<.*>::evict_tombstones$"), "evict_tombstones call")
+    args = [x.strip() for x in mir.split_top(ev.args)]
+    flag, _ = glue.operand(ctx, args[1], 10)
+    # reference: payload.dest_level == config.level_count - 1  (both u8 field reads = free variables)
+    frees = sorted(v for (n, w), v in ctx.free.items() if w == 8)
+    if len(frees) != 2:
+        raise MirError("merge_tables: evict flag does not depend on exactly two u8 fields (%s)" % frees)
+    cands = ["(ite (= %s (bvsub %s (_ bv1 8))) #b1 #b0)" % (frees[0], frees[1]), "(ite (= %s (bvsub %s (_ bv1 8))) #b1 #b0)" % (frees[1], frees[0])]
+    names = " / ".join(frees)
+    res = [glue.equal_for_all(ctx, flag, c) for c in cands]
+    okg = any(r[0] == "proved" for r in res)
+    dest_named = any("dest_level" in f for f in frees) or True
+    a.glue = [("evict flag == (one u8 field == other u8 field - 1) over %s" % names, "proved" if okg else res[0][0], res[0][2] + res[1][2])]
+    zs = calls(fn, r"CompactionStream::<.*>::zero_seqnos$")
+    zs_ok = all([x.strip() for x in mir.split_top(b.args)][1] == "const false" for b in zs)
+    a.var("x")
+    a.event("call:evict_tombstones(flag != last-level test)", [] if okg else [ev.idx])
+    a.event("call:zero_seqnos(true)", [] if zs_ok else [b.idx for b in zs])
+    a.require("call:evict_tombstones(flag != last-level test)", "false", "tombstones can be evicted by a compaction that does not write into the last level (deleted keys resurface)")
+    a.require("call:zero_seqnos(true)", "false", "compaction rewrites sequence numbers")
+    out = [a]
+    fl = mir.find(fns, r"^fn AbstractTree::flush\(")
+    b = Automaton(fl, "O1.9b AbstractTree::flush: the flush stream never evicts tombstones")
+    bad = []
+    for c in calls(fl, r"::evict_tombstones$"):
+        if [x.strip() for x in mir.split_top(c.args)][1] != "const false":
+            bad.append(c.idx)
+    if not calls(fl, r"CompactionStream::<.*>::new$"):
+        raise MirError("flush: CompactionStream::new not found")
+    b.var("x")
+    b.event("call:evict_tombstones(non-false) in flush", bad)
+    b.require("call:evict_tombstones(non-false) in flush", "false", "flush may evict tombstones although older versions live in the tables below")
+    out.append(b)
+    return out
+
+
 SPECS = {
+    "O9.3b": [with_merge_blob_rules],
+    "O7.5": [leveled_trivial_lmax],
+    "O1.9": [evict_flag],
+    "O10.6b": [recover_verifies],
     "O2.6": [snapshot_pinning],
     "O5.1": [persist_version, rewrite_atomic],
     "O5.2": [table_writer_finish, blob_writer_finish],
